@@ -2,6 +2,7 @@ package stack
 
 import (
 	"sync"
+	"time"
 
 	"go.amzn.com/lambda/rapid"
 	"go.amzn.com/lambda/rapidcore"
@@ -30,6 +31,10 @@ func newGates(r *rec.Recorder) *Gates {
 }
 
 func (g *Gates) at(point string) {
+	if point == "server.beforeReserve" {
+		// reference time for the deadline check: the deadline is computed right after Reserve returns
+		g.rec.Emit("hook", "ReserveAt", "nowMs", time.Now().UnixMilli())
+	}
 	g.mu.Lock()
 	if g.armed[point] == 0 {
 		g.mu.Unlock()
